@@ -21,6 +21,8 @@ func init() {
 			ruleNoProgress(c, r, "")
 			ruleMultiStream(c, r, "")
 			ruleXZReaderChecks(c, r, "")
+			ruleBlockEnd(c, r, "")
+			ruleReaderFrom(c, r, "")
 			ruleRawEOFFlag(c, r, "")
 			ruleLoopAdvanceExact(c, r, "")
 			ruleBlockReadOnlySize(c, r, "")
